@@ -110,6 +110,12 @@ class Termizer:
             if not n["stmts"] and "expr" in n:
                 return self.term(n["expr"])
             return self.fresh(n)
+        if k == "If" and "el" in n and n["c"].get("k") != "Let":
+            a = self.term(n["th"])
+            b = self.term(n["el"])
+            if a[0] != "unk" and b[0] != "unk":
+                return ("ite", self.term(n["c"]), a, b)
+            return self.fresh(n)
         if k == "Tup":
             return ("tup",) + tuple(self.term(a) for a in n["es"])
         if k == "Struct":
@@ -155,8 +161,15 @@ def mk_op(op, l, r):
         return ("int", l[1] * r[1])
     if op == "<<" and l[0] == "int" and r[0] == "int" and r[1] < 200:
         return ("int", l[1] << r[1])
-    if op in COMMUTATIVE and repr(l) > repr(r):
-        l, r = r, l
+    if op in COMMUTATIVE:
+        if op == "+" and (r[0] == "int" or l[0] == "int"):
+            if l[0] == "int":
+                l, r = r, l
+            # (x + a) + b -> x + (a + b)
+            if l[0] == "op" and l[1] == "+" and l[3][0] == "int":
+                return mk_op("+", l[2], ("int", l[3][1] + r[1]))
+        elif repr(l) > repr(r):
+            l, r = r, l
     return ("op", op, l, r)
 
 
@@ -294,6 +307,8 @@ def tshow(t):
         return "(%s as %s)" % (tshow(t[2]), t[1])
     if h == "unk":
         return "<%s>" % t[1]
+    if h == "ite":
+        return "(if %s {%s} else {%s})" % (tshow(t[1]), tshow(t[2]), tshow(t[3]))
     if h == "bool":
         return str(t[1]).lower()
     if h == "tup":
@@ -616,6 +631,7 @@ class Walker:
         self.debug_depth = 0
         self.version = itertools.count(1)
         self.loop_stack = []
+        self.snap_defs = {}
         for p in body.params:
             if p.get("k") == "PBind" and (p.get("mut") or F.types[p["t"]].startswith("&mut")):
                 self.T.mut_locals.add(p["id"])
@@ -625,6 +641,15 @@ class Walker:
     def run(self):
         k = self.start.copy()
         self.walk(self.b.body, k)
+        return self
+
+    def expand(self, t, depth=0):
+        """Replace snapshot variables by the value they stood for when they were taken."""
+        if not isinstance(t, tuple) or not t or depth > 8:
+            return t
+        if t in self.snap_defs:
+            return self.expand(self.snap_defs[t], depth + 1)
+        return tuple(self.expand(x, depth) if isinstance(x, tuple) else x for x in t)
 
     # ---- versions of locals
     def havoc_local(self, lid, name="v"):
@@ -711,6 +736,7 @@ class Walker:
             if cur is None or cur[0] == "var" or not mentions(cur, pred):
                 continue
             v = ("var", "snap", "%s#%d" % (lid, next(self.version)))
+            self.snap_defs[v] = cur
             K.atoms = {rewrite_atom(a, cur, v) for a in K.atoms}
             for l2, t2 in list(self.T.env.items()):
                 if l2 != lid and mentions(t2, lambda x: x == cur):
